@@ -10,8 +10,8 @@ import z3
 
 from .engine import (Adt, Tup, Slice, Ref, Closure, FnItem, Iter, HVec, Deque, Coroutine, NativeFuture, FmtArg,
                      FmtArguments, Token, FloatVal, Opaque, NativeObj, UNIT, Panic, Unsupported, Some, NONE, Ok, Err,
-                     Ready, PENDING, deref, copy_val, is_sym, mask, bvval, subst_env, strip_generics)
-from .mir import split_top, find_matching, norm_type, parse_type, type_str, int_info
+                     Ready, PENDING, deref, copy_val, is_sym, mask, bvval, subst_env, strip_generics, Env)
+from .mir import split_top, find_matching, norm_type, parse_type, type_str, int_info, unify
 
 NATIVES = []
 
@@ -1541,8 +1541,13 @@ def n_default(ex, callee, a, env):
     if ex.impl_index is None:
         ex.build_impl_index()
     for f in ex.impl_index.get('default', []):      # a derived / written impl in the loaded crates
-        if not f.params and norm_type(f.ret) == ty:
+        if f.params:
+            continue
+        if norm_type(f.ret) == ty:
             return ex.call_fn(f, [], None)
+        b = {}
+        if unify(parse_type(norm_type(f.ret)), pt, b) and b:
+            return ex.call_fn(f, [], Env(b))
     raise Unsupported('Default for ' + ty)
 
 
